@@ -12,7 +12,7 @@ import numpy as np
 
 from common import zlit, qlit, blit, lst, natlit
 from mcscript import (Shared, ScriptedCoupling, scripted_criteria, make_product, make_control_variates,
-                      WarningCatcher)
+                      WarningCatcher, pm_offset)
 
 TOL = Fraction(1, 10 ** 9)
 
@@ -31,10 +31,23 @@ def cost_fn(ctab):
     return lambda l, n: ctab[l] + (n % 3) / 4.0
 
 
-def expected_row(spec, l, n):
+def raw_value(spec, l, n):
+    """(fine, coarse) value of the path at maturity: scripted sample + the deterministic path of the path manager that
+    belongs to this pricing (epoch) and level"""
     f, c = sample_fn(spec["salt"])(l, n)
+    of, oc = pm_offset(spec.get("epoch", 0), l)
+    return (f + of, c + oc)
+
+
+def payoff_component(x, j):
+    """genuine vector payoff: component j of the payoff of underlying value x (component 0 = x)"""
+    return (j + 1) * x + j / 4.0
+
+
+def expected_row(spec, l, n, j=0):
+    f, c = raw_value(spec, l, n)
     df, no = Fraction(spec["df"]), Fraction(spec["notional"])
-    return (df * no * Fraction(f), Fraction(0) if l == 0 else df * no * Fraction(c))
+    return (df * no * Fraction(payoff_component(f, j)), Fraction(0) if l == 0 else df * no * Fraction(payoff_component(c, j)))
 
 
 # ------------------------------------------------------------------ history generation
@@ -89,37 +102,59 @@ def alloc_generator(spec):
 
 
 # ------------------------------------------------------------------ running the implementation
-def run_engine(spec, alloc=None, conv=None, fixed=False, cv=None):
-    """returns obs dict (everything observed on the real engine)."""
+def vector_payoff(d):
+    if d == 1:
+        return lambda x: x
+    return lambda x: np.array([payoff_component(x, j) for j in range(d)])
+
+
+def run_engine_seq(specs, allocs=None, fixed=False, cv=None, rates=(1.0, 2.0, 1.0)):
+    """prices every spec of the list, in order, on ONE multilevel Engine instance (one coupling process object); the
+    configuration fields, the scripted oracles and the product of each pricing are those of its spec.
+    Returns one obs dict per pricing, taken right after it."""
     from rpylib.montecarlo.multilevel.engine import Engine
     from rpylib.montecarlo.configuration import ConfigurationMultiLevel, ConvergenceRates
     sh = Shared()
-    cp = ScriptedCoupling(sample_fn(spec["salt"]), cost_fn(spec["ctab"]), df=spec["df"], shared=sh)
-    if alloc is None:
-        if "atab" in spec:
-            alloc, conv = spec["atab"], spec["vtab"]
-        else:
-            alloc, conv = alloc_generator(spec)
-    crit = scripted_criteria(alloc, conv, sh)
-    conf = ConfigurationMultiLevel(convergence_rates=ConvergenceRates(1.0, 2.0, 1.0), convergence_criteria=crit,
-                                   initial_level=spec["L0"], maximum_level=spec["Lmax"], initial_mc_paths=spec["N0"],
+    first = specs[0]
+    cp = ScriptedCoupling(sample_fn(first["salt"]), cost_fn(first["ctab"]), df=first["df"], shared=sh)
+    conf = ConfigurationMultiLevel(convergence_rates=ConvergenceRates(*rates), convergence_criteria=None,
+                                   initial_level=first["L0"], maximum_level=first["Lmax"], initial_mc_paths=first["N0"],
                                    nb_of_processes=1, seed=1, control_variates=cv)
     eng = Engine(conf, cp)
-    product = make_product(notional=spec["notional"], dimension=spec.get("dim", 1))
-    obs = {"raised": None}
-    with WarningCatcher() as w, np.errstate(all="ignore"), warnings.catch_warnings():
-        warnings.simplefilter("ignore")
-        try:
-            st = eng.price_with_constant_mc_paths_and_level(product) if fixed else eng.price(product, rmse=0.125)
-        except IndexError as e:
-            obs["raised"] = f"IndexError: {e}"
-            obs["shared"] = sh
-            return obs
-    obs["fallthrough"] = any("Initial number of Monte-Carlo paths" in m for m in w.messages)
-    with np.errstate(all="ignore"), warnings.catch_warnings():
-        warnings.simplefilter("ignore")
-        _observe(obs, st, sh)
-    return obs
+    out = []
+    for e, spec in enumerate(specs):
+        spec["epoch"] = e
+        alloc, conv = allocs[e] if allocs else (None, None)
+        if alloc is None:
+            if "atab" in spec and spec["atab"] is not None:
+                alloc, conv = spec["atab"], spec["vtab"]
+            else:
+                alloc, conv = alloc_generator(spec)
+        conf.convergence_criteria = scripted_criteria(alloc, conv, sh)
+        conf.initial_level, conf.maximum_level, conf.initial_mc_paths = spec["L0"], spec["Lmax"], spec["N0"]
+        cp.sample, cp.cost = sample_fn(spec["salt"]), cost_fn(spec["ctab"])
+        cp.fine_process._df = spec["df"]
+        product = make_product(notional=spec["notional"], dimension=spec.get("dim", 1), fun=vector_payoff(spec.get("dim", 1)))
+        obs = {"raised": None}
+        out.append(obs)
+        with WarningCatcher() as w, np.errstate(all="ignore"), warnings.catch_warnings():
+            warnings.simplefilter("ignore")
+            try:
+                st = eng.price_with_constant_mc_paths_and_level(product) if fixed else eng.price(product, rmse=0.125)
+            except (IndexError, ValueError) as ex:
+                obs["raised"] = f"{type(ex).__name__}: {ex}"
+                obs["shared"] = sh
+                break
+        obs["fallthrough"] = any("Initial number of Monte-Carlo paths" in m for m in w.messages)
+        with np.errstate(all="ignore"), warnings.catch_warnings():
+            warnings.simplefilter("ignore")
+            _observe(obs, st, sh)
+    return out
+
+
+def run_engine(spec, alloc=None, conv=None, fixed=False, cv=None, rates=(1.0, 2.0, 1.0)):
+    """one pricing on a fresh engine; returns obs dict (everything observed on the real engine)."""
+    return run_engine_seq([spec], allocs=[(alloc, conv)], fixed=fixed, cv=cv, rates=rates)[0]
 
 
 def _observe(obs, st, sh):
@@ -139,6 +174,7 @@ def _observe(obs, st, sh):
     obs["cost"] = float(r.cost)
     obs["atab"], obs["vtab"] = sh.alloc_answers, sh.conv_answers
     obs["events"] = [e for e in sh.events if e[0] != "draw"]
+    obs["max_level_drawn"] = sh.max_level_drawn
 
 
 def replay_payload(spec, obs, **extra):
@@ -196,8 +232,21 @@ def check_c05(spec, obs):
             i = next(i for i in range(len(got)) if got[i] != want[i])
             out.append(("a stored row is not the sample simulated for it (dropped / duplicated / overwritten / placeholder)",
                         {"level": l, "row": i, "stored": [float(x) for x in got[i]], "simulated": [float(x) for x in want[i]]}))
-        if arr.ndim == 3 and arr.shape[1] > 1 and not all(np.array_equal(arr[:, 0, :], arr[:, j, :]) for j in range(1, arr.shape[1])):
-            out.append(("payoff components of a stored row differ although the payoff is the same scalar", {"level": l}))
+        # genuine vector payoff: every component of every row must be the payoff component of the simulated sample
+        if arr.ndim == 3 and arr.shape[1] > 1 and arr.shape[0] == draws[l]:
+            for j in range(1, arr.shape[1]):
+                wj = [expected_row(spec, l, n, j) for n in range(draws[l])]
+                gj = [(Fraction(float(a)), Fraction(float(b))) for a, b in arr[:, j, :]]
+                if gj != wj:
+                    i = next(i for i in range(len(gj)) if gj[i] != wj[i])
+                    out.append(("vector payoff: a stored (fine, coarse) pair of a payoff component is not that component of the simulated sample",
+                                {"level": l, "component": j, "row": i, "stored": [float(x) for x in gj[i]], "simulated": [float(x) for x in wj[i]]}))
+                    break
+        # where no path was simulated numpy has no statistics: the reported fields must be nan there (never a number)
+        if draws[l] == 0 and Nl[l] == 0:
+            bad = [name for name in ("ml", "vl", "cl", "mean_level_l", "var_level_l", "kurtosis") if not math.isnan(obs[name][l])]
+            if bad:
+                out.append(("a level without any simulated path reports a number instead of nan", {"level": l, "fields": bad}))
         if l == 0 and any(c != 0 for _, c in got):
             out.append(("coarse payoff not identically zero at level 0", {"level": 0}))
         # estimator and results from the rows that SHOULD be there
@@ -234,8 +283,7 @@ def coq_inputs(spec, obs, fuel=80):
     """the oracle tables and parameters of one history as arguments of Model.Mlmc.run_tab (without phantom)"""
     nlev = max(len(obs["Nl"]), obs["n_stat_levels"], spec["L0"] + 1) + 1
     draws = obs["draws"] + [0] * nlev
-    smp = sample_fn(spec["salt"])
-    samples = lst([lst([qpair(smp(l, n)) for n in range(draws[l] + 2)]) for l in range(nlev)])
+    samples = lst([lst([qpair(raw_value(spec, l, n)) for n in range(draws[l] + 2)]) for l in range(nlev)])
     ctab = lst([qlit(c) for c in spec["ctab"]])
     atab = lst([lst([zlit(x) for x in row]) for row in obs["atab"]])
     vtab = lst([blit(b) for b in obs["vtab"]])
@@ -255,3 +303,17 @@ def coq_expected_rows(obs):
 def coq_expected_results(obs):
     fields = lst([lst([qlit(x) for x in _nz(obs, name)]) for name in ("ml", "vl", "cl", "mean_level_l", "var_level_l", "kurtosis")])
     return f"({qlit(obs['price_nocv'])}, {qlit(obs['cost'])}, {fields})"
+
+
+def coq_pricing(spec, obs, fuel=80):
+    """argument of Model.Mlmc.tab_pricing: RAW scripted samples (the model adds the deterministic path of the path manager
+    it determines to be in use)"""
+    nlev = max(len(obs["Nl"]), obs["n_stat_levels"], spec["L0"] + 1) + 1
+    draws = obs["draws"] + [0] * nlev
+    smp = sample_fn(spec["salt"])
+    samples = lst([lst([qpair(smp(l, n)) for n in range(draws[l] + 2)]) for l in range(nlev)])
+    ctab = lst([qlit(c) for c in spec["ctab"]])
+    atab = lst([lst([zlit(x) for x in row]) for row in obs["atab"]])
+    vtab = lst([blit(b) for b in obs["vtab"]])
+    return (f"({samples}, {ctab}, {atab}, {vtab}, ({qlit(spec['df'])}, {qlit(spec['notional'])}), "
+            f"({natlit(spec['Lmax'])}, {natlit(fuel)}, {natlit(spec['L0'])}, {natlit(spec['N0'])}))")
